@@ -184,7 +184,8 @@ impl Prop for C10 {
                     members.push((v, idx));
                 }
                 let ttc_version = if rng.bool() { 0x0001_0000 } else { 0x0002_0000 };
-                let bytes = sfnt::build_ttc(ttc_version, &pool, &members);
+                let interleaved = rng.chance(1, 3);
+                let bytes = if interleaved { sfnt::build_ttc_interleaved(ttc_version, &pool, &members) } else { sfnt::build_ttc(ttc_version, &pool, &members) };
                 let wit = || J::obj(vec![("kind", J::s("ttc")), ("members", J::U(nmembers as u64)), ("bytes_head", J::hex(&bytes[..bytes.len().min(200)])), ("len", J::U(bytes.len() as u64))]);
                 let fd = match ReadScope::new(&bytes).read::<FontData<'_>>() {
                     Ok(f) => f,
@@ -219,6 +220,9 @@ impl Prop for C10 {
                 }
                 if ok {
                     cx.class("ttc");
+                    if interleaved && nmembers > 1 {
+                        cx.class("ttc:offset-tables-interleaved-with-table-data");
+                    }
                     if members.iter().any(|m| members.iter().filter(|n| n.1.iter().any(|i| m.1.contains(i))).count() > 1) {
                         cx.class("ttc:shared-tables");
                     }
@@ -241,6 +245,31 @@ impl Prop for C10 {
                 };
                 let sort_dir = !rng.chance(1, 5);
                 let (bytes, comp) = build_woff(version, &wt, meta.as_deref(), private.as_deref(), sort_dir);
+                // Reading must not depend on what was read before, on this thread or any other object: one
+                // case in four first reads a damaged copy of the same file (a byte flipped inside a
+                // compressed table, or the file truncated) and ignores the outcome.
+                if rng.chance(1, 4) && bytes.len() > 44 + 20 * wt.len() {
+                    let mut bad = bytes.clone();
+                    if rng.bool() {
+                        let at = 44 + 20 * wt.len() + rng.below(bad.len() - 44 - 20 * wt.len());
+                        bad[at] ^= 1 << rng.below(8);
+                    } else {
+                        let cut = 44 + 20 * wt.len() + rng.below(bad.len() - 44 - 20 * wt.len());
+                        bad.truncate(cut);
+                    }
+                    let r = cx.guard("damaged-sibling", bad.len(), || {
+                        if let Ok(fd) = ReadScope::new(&bad).read::<FontData<'_>>() {
+                            if let Ok(p) = fd.table_provider(0) {
+                                for (t, _) in &tables {
+                                    let _ = p.table_data(*t);
+                                }
+                            }
+                        }
+                    });
+                    if r.is_some() {
+                        cx.class("woff:damaged-copy-read-first");
+                    }
+                }
                 let exp = Expect { version, tables };
                 let wit = || J::obj(vec![("kind", J::s("woff")), ("bytes_head", J::hex(&bytes[..bytes.len().min(44 + 20 * 6)])), ("len", J::U(bytes.len() as u64))]);
                 let fd = match ReadScope::new(&bytes).read::<FontData<'_>>() {
